@@ -1233,7 +1233,8 @@ class Server(utils.EventEmitter):
         See Bluetooth spec Vol 3, Part F - 3.4.7.3 Handle Value Confirmation
         '''
         del confirmation  # Unused.
-        if (pending_confirmation := self.pending_confirmations[bearer]) is None:
+        pending_confirmation = self.pending_confirmations[bearer]
+        if pending_confirmation is None or pending_confirmation.done():
             # Not expected!
             logger.warning(
                 '!!! unexpected confirmation, there is no pending indication'
